@@ -567,25 +567,25 @@ pub fn marshal_rtcp_packets(packets: &[RtcpPacket]) -> RtpResult<Vec<u8>> {
         match packet {
             RtcpPacket::SenderReport(sr) => write_rtcp_packet(
                 &mut out,
-                sr.report_blocks.len() as u8,
+                rtcp_count(sr.report_blocks.len())?,
                 RTCP_SR,
                 build_sender_report_body(sr)?,
             ),
             RtcpPacket::ReceiverReport(rr) => write_rtcp_packet(
                 &mut out,
-                rr.report_blocks.len() as u8,
+                rtcp_count(rr.report_blocks.len())?,
                 RTCP_RR,
                 build_receiver_report_body(rr)?,
             ),
             RtcpPacket::SourceDescription(sdes) => write_rtcp_packet(
                 &mut out,
-                sdes.chunks.len() as u8,
+                rtcp_count(sdes.chunks.len())?,
                 RTCP_SDES,
                 build_sdes_body(sdes),
             ),
             RtcpPacket::Goodbye(bye) => write_rtcp_packet(
                 &mut out,
-                bye.sources.len() as u8,
+                rtcp_count(bye.sources.len())?,
                 RTCP_BYE,
                 build_goodbye_body(bye),
             ),
@@ -613,6 +613,17 @@ pub fn marshal_rtcp_packets(packets: &[RtcpPacket]) -> RtpResult<Vec<u8>> {
         }
     }
     Ok(out)
+}
+
+/// The RC/SC header field is 5 bits wide: refuse what it cannot count instead of
+/// writing every entry behind a wrapped count.
+fn rtcp_count(n: usize) -> RtpResult<u8> {
+    if n > 31 {
+        return Err(RtpError::InvalidRtcp(
+            "more than 31 entries do not fit the 5-bit count",
+        ));
+    }
+    Ok(n as u8)
 }
 
 fn write_rtcp_packet(out: &mut Vec<u8>, fmt: u8, packet_type: u8, mut body: Vec<u8>) {
